@@ -235,5 +235,8 @@ pub fn par_map<T: Send, F: Fn(usize) -> T + Sync>(n: usize, threads: usize, f: F
 }
 
 pub fn ncpu() -> usize {
+    if let Some(n) = std::env::var("HSV_THREADS").ok().and_then(|s| s.parse().ok()) {
+        return n;
+    }
     std::thread::available_parallelism().map(|n| n.get()).unwrap_or(4)
 }
